@@ -127,7 +127,40 @@ func checkOpenCleanupKeepsError(c *Ctx, r *Report, rule string) {
 		}
 	}
 	if n == 0 {
-		r.Unk(rule, construct, c.Pos(fn.Pos()), "no deferred closure of Open closes the channel")
+		// clean-up written out on each failing path: the close's own error must not be what is returned
+		closes := staticCallsTo(fn, chClose)
+		if len(closes) == 0 {
+			r.Unk(rule, construct, c.Pos(fn.Pos()), "Open never closes the channel")
+			return
+		}
+		bad := false
+		for _, ci := range closes {
+			call, ok := ci.(*ssa.Call)
+			if !ok {
+				continue
+			}
+			allInstrs(fn, func(in ssa.Instruction) {
+				if ret, isRet := in.(*ssa.Return); isRet {
+					for _, rv := range ret.Results {
+						if rv == ssa.Value(call) {
+							bad = true
+						}
+						if phi, isPhi := rv.(*ssa.Phi); isPhi {
+							for _, e := range phi.Edges {
+								if e == ssa.Value(call) {
+									bad = true
+								}
+							}
+						}
+					}
+				}
+			})
+		}
+		if bad {
+			r.Bad(rule, construct, c.Pos(closes[0].Pos()), "Open returns the error of closing the channel in place of the error it is cleaning up for")
+		} else {
+			r.OK(rule, construct, c.Pos(closes[0].Pos()), "explicit clean-up: the close's own result is discarded")
+		}
 	}
 }
 
@@ -187,24 +220,30 @@ func checkExplicitMatcherArgs(c *Ctx, r *Report, rule string) {
 	}
 	construct := "ReadUntilExplicit: the window contains the input"
 	n := 0
-	allInstrs(fn, func(in ssa.Instruction) {
-		call, ok := in.(*ssa.Call)
-		if !ok {
-			return
-		}
-		o := CalleeObj(call)
-		if o == nil || o.Pkg() == nil || o.Pkg().Path() != "bytes" || o.Name() != "Contains" || len(call.Call.Args) != 2 {
-			return
-		}
-		n++
-		hay, needle := call.Call.Args[0], call.Call.Args[1]
-		hc, isCall := hay.(*ssa.Call)
-		if isCall && hc.Call.StaticCallee() == prb && sameParam(needle, fn.Params[2]) {
-			r.OK(rule, construct, c.Pos(call.Pos()), "bytes.Contains(processReadBuf(buffer, depth), input)")
-		} else {
-			r.Bad(rule, construct, c.Pos(call.Pos()), "the exact echo test is not 'the search window contains the input' (arguments swapped or a different haystack): with the roles reversed the wait ends as soon as what was read so far is a fragment of the input, and the return is sent before the device has echoed the command")
-		}
-	})
+	scan := []*ssa.Function{fn}
+	// the test may sit in the match predicate handed to a shared loop helper
+	scan = append(scan, AnonFuncsDeep(fn)...)
+	for _, g := range scan {
+		g := g
+		allInstrs(g, func(in ssa.Instruction) {
+			call, ok := in.(*ssa.Call)
+			if !ok {
+				return
+			}
+			o := CalleeObj(call)
+			if o == nil || o.Pkg() == nil || o.Pkg().Path() != "bytes" || o.Name() != "Contains" || len(call.Call.Args) != 2 {
+				return
+			}
+			n++
+			hay, needle := call.Call.Args[0], call.Call.Args[1]
+			hc, isCall := hay.(*ssa.Call)
+			if isCall && hc.Call.StaticCallee() == prb && (sameParam(needle, fn.Params[2]) || (g != fn && capturedParam(needle, fn.Params[2]))) {
+				r.OK(rule, construct, c.Pos(call.Pos()), "bytes.Contains(processReadBuf(buffer, depth), input)")
+			} else {
+				r.Bad(rule, construct, c.Pos(call.Pos()), "the exact echo test is not 'the search window contains the input' (arguments swapped or a different haystack): with the roles reversed the wait ends as soon as what was read so far is a fragment of the input, and the return is sent before the device has echoed the command")
+			}
+		})
+	}
 	if n == 0 {
 		r.Unk(rule, construct, c.Pos(fn.Pos()), "no bytes.Contains test found")
 	}
